@@ -41,7 +41,11 @@ Inductive case :=
 | CEmb (vals : list bytes) (pre : bytes)
 (* ImmuStore.ReadValue on an entry with (vlen, off, hval); mode 0 embedded / 1 single vlog /
    2 several vlogs; txlog is given in embedded mode only *)
-| CVal (mode : N) (txlog : bytes) (vlogs : list bytes) (vlen off : N) (hval : bytes) (out : res bytes).
+| CVal (mode : N) (txlog : bytes) (vlogs : list bytes) (vlen off : N) (hval : bytes) (out : res bytes)
+(* the value part of ImmuStore.ExportTx(id, false, false, holder): es = (vLen, vOff, hVal) of the
+   entries ReadTx returned; out = the "values truncated" flag and the per-entry payloads *)
+| CExp (mode : N) (txlog : bytes) (vlogs : list bytes) (es : list (N * N * bytes))
+       (out : res (bool * list bytes)).
 
 Definition case_ok (c : case) : bool :=
   match c with
@@ -54,4 +58,9 @@ Definition case_ok (c : case) : bool :=
   | CEmb vals pre => bytes_eqb (write_embedded_prefix vals) pre
   | CVal m txlog vlogs vlen off hval o =>
       res_eqb bytes_eqb (read_value sha256 (vmode_of m) txlog vlogs vlen off hval) o
+  | CExp m txlog vlogs es o =>
+      res_eqb (fun a b => Bool.eqb (fst a) (fst b) && list_eqb bytes_eqb (snd a) (snd b))
+        (export_values sha256 true (vmode_of m) txlog vlogs
+           (map (fun x => {| e_md := None; e_key := []; e_vlen := fst (fst x); e_voff := snd (fst x);
+                             e_hval := snd x |}) es) 0 false) o
   end.
